@@ -4,6 +4,9 @@ import (
 	"fmt"
 	"os"
 	"testing"
+	"time"
+
+	"verif/harness/evid"
 )
 
 // TestSeedsReport is a development aid (C04_SEEDS=1): it presents every unmutated corpus item and
@@ -65,5 +68,89 @@ func TestPlanReport(t *testing.T) {
 			}
 		}
 		fmt.Printf("thorough=%v batches=%d members=%d net=%d per-mutator=%v\n", th, len(bs), total, net, per)
+	}
+}
+
+// TestMember (C04_MEMBER="ep|seed|mut|index") evaluates one campaign member in this process and prints timing.
+func TestMember(t *testing.T) {
+	spec := os.Getenv("C04_MEMBER")
+	if spec == "" {
+		t.Skip("set C04_MEMBER")
+	}
+	var epn, sn, mn string
+	var idx int
+	parts := splitN(spec, "|", 4)
+	epn, sn, mn = parts[0], parts[1], parts[2]
+	fmt.Sscanf(parts[3], "%d", &idx)
+	ep := registry[epn]
+	for _, s := range ep.seeds() {
+		if s.name != sn {
+			continue
+		}
+		b := batch{EP: epn, Op: s.op, Seed: s.name, Base: s.in, Mut: mn}
+		c, ok := b.member(idx)
+		if !ok {
+			t.Fatal("no such member")
+		}
+		if os.Getenv("C04_VIA_EVAL") != "" {
+			t0 := time.Now()
+			v := Eval(c)
+			fmt.Printf("Eval: ok=%v sig=%s in %v\n%s\n", v.OK, v.Sig, time.Since(t0), headOf(v.Msg, 4))
+			return
+		}
+		v, inf := evalLocal(c)
+		fmt.Printf("verdict ok=%v sig=%s outcome=%s alloc=%d dur=%v\n%s\n", v.OK, v.Sig, inf.Outcome, inf.Alloc, inf.Dur, headOf(v.Msg, 8))
+	}
+}
+
+func splitN(s, sep string, n int) []string {
+	out := []string{}
+	for len(out) < n-1 {
+		i := indexOf(s, sep)
+		if i < 0 {
+			break
+		}
+		out = append(out, s[:i])
+		s = s[i+len(sep):]
+	}
+	return append(out, s)
+}
+
+func indexOf(s, sep string) int {
+	for i := 0; i+len(sep) <= len(s); i++ {
+		if s[i:i+len(sep)] == sep {
+			return i
+		}
+	}
+	return -1
+}
+
+// TestBatch (C04_BATCH="ep|seed|mut|lo|hi|step") runs one batch through a runner and prints what happened.
+func TestBatch(t *testing.T) {
+	spec := os.Getenv("C04_BATCH")
+	if spec == "" {
+		t.Skip("set C04_BATCH")
+	}
+	parts := splitN(spec, "|", 6)
+	var lo, hi, step int
+	fmt.Sscanf(parts[3], "%d", &lo)
+	fmt.Sscanf(parts[4], "%d", &hi)
+	fmt.Sscanf(parts[5], "%d", &step)
+	ep := registry[parts[0]]
+	for _, s := range ep.seeds() {
+		if s.name != parts[1] {
+			continue
+		}
+		b := batch{ID: 7, EP: parts[0], Op: s.op, Seed: s.name, Base: s.in, Mut: parts[2], Lo: lo, Hi: hi, Step: step}
+		t0 := time.Now()
+		r := &runner{
+			onRes:   func(_ batch, res *batchRes) { fmt.Printf("%v res from=%d n=%d fails=%d\n", time.Since(t0), res.From, len(res.Codes), len(res.Fails)) },
+			onFatal: func(_ batch, c Case, v evid.Verdict) { fmt.Printf("%v fatal %s ok=%v sig=%s\n", time.Since(t0), c.Src, v.OK, v.Sig) },
+			onNote:  func(l string) { fmt.Printf("%v note %s\n", time.Since(t0), l) },
+			onInc:   func(f string, a ...any) { fmt.Printf("%v INC "+f+"\n", append([]any{time.Since(t0)}, a...)...) },
+			hang:    &hangBook{},
+		}
+		r.run(b)
+		r.close()
 	}
 }
